@@ -27,6 +27,12 @@ from whad.common.stack import Layer, source, alias
 
 logger = logging.getLogger(__name__)
 
+# Exceptions a profile hook raises to tell the GATT server what to answer
+HOOK_RETURNS = (
+    HookReturnValue, HookReturnAuthentRequired, HookReturnAuthorRequired,
+    HookReturnAccessDenied, HookReturnGattError, HookReturnNotFound
+)
+
 SUPPORTED_GROUP_TYPES = (
     UUID(0x2800), # Primary service
     UUID(0x2801), # Secondary service
@@ -1313,6 +1319,29 @@ class GattServer(GattLayer):
         else:
             return None
 
+    def characteristic_written(self, service, characteristic, offset, value,
+                               without_response):
+        """Tell the model a characteristic value has been written by the client.
+
+        The `written` hook is called once the value has been updated and the
+        Write Response (if any) sent: the answer cannot be changed any more,
+        a HookReturn* exception raised by this hook is therefore ignored (it
+        must not produce a second PDU for the same request).
+        """
+        try:
+            self.server_model.on_characteristic_written(
+                service,
+                characteristic,
+                offset,
+                value,
+                without_response
+            )
+        except HOOK_RETURNS as hook_return:
+            logger.debug(
+                "[gatt] %s raised by a 'written' hook ignored (write already done)",
+                hook_return.__class__.__name__
+            )
+
     @proclock
     def notify(self, characteristic):
         """Sends a notification to a GATT client for a given characteristic.
@@ -1847,7 +1876,7 @@ class GattServer(GattLayer):
                         self.att.write_response()
 
                         # Trigger our written hook (after charac has been written)
-                        self.server_model.on_characteristic_written(
+                        self.characteristic_written(
                             service,
                             charac,
                             0,
@@ -1861,7 +1890,7 @@ class GattServer(GattLayer):
                         self.att.write_response()
 
                         # Trigger our written hook (after charac has been written)
-                        self.server_model.on_characteristic_written(
+                        self.characteristic_written(
                             service,
                             charac,
                             0,
@@ -2042,7 +2071,7 @@ class GattServer(GattLayer):
                         attr.value = request.value
 
                         # Trigger our written hook (after charac has been written)
-                        self.server_model.on_characteristic_written(
+                        self.characteristic_written(
                             service,
                             charac,
                             0,
@@ -2055,7 +2084,7 @@ class GattServer(GattLayer):
                         attr.value = force_value.value
 
                         # Trigger our written hook (after charac has been written)
-                        self.server_model.on_characteristic_written(
+                        self.characteristic_written(
                             service,
                             charac,
                             0,
